@@ -35,6 +35,7 @@ type scScenario struct {
 	AuxLen  int    `json:"auxlen"`
 	AuxKind string `json:"auxkind"`
 	NoTmp   bool   `json:"notmp"`
+	TmpKind string `json:"tmpkind"` // "" dir | file | dangling
 	Algo    string `json:"algo"` // default set algorithm: scrypt | argon
 	Empty   bool   `json:"empty"`
 	WasAdm  bool   `json:"wasadmin"`
@@ -60,6 +61,10 @@ func scScenarios() []scScenario {
 		scScenario{Name: "update-aux-crlf-nonl", Op: "update", User: "alice", OldPw: "alice-old", NewPw: "alice-new", AuxLen: 300, AuxKind: "crlf-nonl", Algo: "argon"},
 		scScenario{Name: "update-admin", Op: "update", User: "carol", OldPw: "carol-old", NewPw: "carol-new", AuxLen: 64, Algo: "argon", WasAdm: true},
 		scScenario{Name: "update-notmp", Op: "update", User: "alice", OldPw: "alice-old", NewPw: "alice-new", AuxLen: 100, Algo: "scrypt", NoTmp: true},
+		// the work area is unusable: the operation must fail without creating anything anywhere else
+		scScenario{Name: "add-user-tmp-is-file", Op: "add", User: "bob", NewPw: "bob-new", Algo: "scrypt", TmpKind: "file"},
+		scScenario{Name: "update-tmp-is-file", Op: "update", User: "alice", OldPw: "alice-old", NewPw: "alice-new", AuxLen: 100, Algo: "argon", TmpKind: "file"},
+		scScenario{Name: "update-tmp-dangling-symlink", Op: "update", User: "alice", OldPw: "alice-old", NewPw: "alice-new", AuxLen: 100, Algo: "scrypt", TmpKind: "dangling"},
 		scScenario{Name: "setadmin-up", Op: "setadmin", User: "alice", Admin: true, OldPw: "alice-old", AuxLen: 50, Algo: "scrypt"},
 		scScenario{Name: "setadmin-down", Op: "setadmin", User: "carol", Admin: false, OldPw: "carol-old", AuxLen: 50, Algo: "scrypt", WasAdm: true},
 		scScenario{Name: "setadmin-same", Op: "setadmin", User: "carol", Admin: true, OldPw: "carol-old", Algo: "scrypt", WasAdm: true},
@@ -168,7 +173,12 @@ func scprep() {
 		plant("alice", ".user", "alice-old", int(def), auxA)
 		plant("carol", ".admin", "carol-old", 3-int(def), auxC)
 		plant("dave", ".user", "dave-old", 3-int(def), []byte("totp: REFWRQ==\n"))
-		if !sc.NoTmp {
+		switch {
+		case sc.TmpKind == "file":
+			os.WriteFile(filepath.Join(base, ".tmp"), []byte("not a directory\n"), 0600) //nolint:errcheck
+		case sc.TmpKind == "dangling":
+			os.Symlink(filepath.Join(dir, "does-not-exist", "tmp"), filepath.Join(base, ".tmp")) //nolint:errcheck
+		case !sc.NoTmp:
 			os.Mkdir(filepath.Join(base, ".tmp"), 0700) //nolint:errcheck
 		}
 	}
